@@ -40,12 +40,19 @@ def inputs(tier):
                dict(src='corpus', d=corpus.pair_desc('MPO', 'ARG', 2.8, 'deep')), dict(src='corpus', d=corpus.pair_desc('MPO', 'LYS', 2.8, 'deep')),
                dict(src='corpus', d=corpus.pair_desc('MPO', 'GLU', 3.0, 'deep')), dict(src='corpus', d=corpus.window_desc('3SGB', 'I', 0, 8))]
     out += coupled
-    out += [dict(i, cfg=c) for i in coupled for c in ('shared', 'shared-keep')]
+    out += [dict(i, cfg=c) for i in coupled for c in ('shared', 'shared-keep', 'centre', 'centre-keep')]
+    out += [dict(src='corpus', d=d, cfg=c) for c in ('centre', 'centre-keep') for d in (corpus.window_desc('1HPX', 'A', 66, 8), corpus.window_desc('1FTJ', 'A', 55, 10),
+                                                                                      corpus.pair_desc('MGU', 'ACT', 2.9, 'deep'))]
     # the same monitors under parameter files that move the scalar settings the bounds are read from
     base = [i for i in out if i['d']['t'] in ('cutout', 'cluster')] + [i for i in out if i['d']['t'] == 'pair'][:: (7 if tier == 'quick' else 3)]
     for name in CFG_EDITS:
-        if not name.startswith('shared'):
+        if not name.startswith(('shared', 'centre')):
             out += [dict(i, cfg=name) for i in base[:: (2 if tier == 'quick' else 1)]]
+    # two calculations one after the other in the same process, the second under a parameter file with tighter maxima: its bounds
+    # are those of its own parameter file
+    for d in (corpus.pair_desc('ASP', 'GLU', 2.8, 'deep'), corpus.cluster_desc(('GLU', 'HIS', 'ASP'), 'star', 3.0, 'deep'), corpus.cutout_desc('1HPX', 'A', 24, 10.0)):
+        for first, second in ((None, 'hbond-low'), ('hbond', 'hbond-low'), (None, 'ranges-wide'), ('ranges', 'ranges-wide')):
+            out.append(dict(src='sequence', d=d, first=first, cfg=second))
     # several conformations (a residue mutated or displaced in the second model): the bounds and sign rules hold in every conformation
     # and - being convex - in the reported average
     for ks, lay in ((('ASP', 'LYS', 'GLU'), 'line'), (('GLU', 'HIS', 'ASP'), 'star'), (('TYR', 'ARG', 'ASP'), 'line'), (('CYS', 'LYS', 'GLU'), 'star'),
@@ -182,7 +189,8 @@ CFG_EDITS = {'shared': {'shared_determinants': '1'}, 'shared-keep': {'shared_det
              'allowance': {'desolvationAllowance': '0.05'}, 'scaling': {'desolvationSurfaceScalingFactor': '0.0', 'desolvationPrefactor': '-20.0'},
              'ranges': {'Nmin': '100', 'Nmax': '300', 'coulomb_cutoff1': '3.0', 'coulomb_cutoff2': '12.0'},
              'hbond': {'sidechain_interaction': '1.2', 'COO_HIS_exception': '2.9', 'CYS_CYS_exception': '4.4'},
-             'ranges-wide': {'coulomb_cutoff1': '6.0', 'coulomb_cutoff2': '12.0'},
+             'ranges-wide': {'coulomb_cutoff1': '6.0', 'coulomb_cutoff2': '12.0'}, 'hbond-low': {'sidechain_interaction': '0.30'},
+             'centre': {'common_charge_centre': '1'}, 'centre-keep': {'common_charge_centre': '1', 'remove_penalised_group': '0'},
              'exclude-his': {'+exclude_sidechain_interactions': ['HIS']}, 'exclude-acids': {'+exclude_sidechain_interactions': ['ASP', 'GLU', 'C-']},
              'exclude-bases': {'+exclude_sidechain_interactions': ['LYS', 'ARG', 'TYR', 'CYS']}}
 
@@ -212,6 +220,8 @@ def run_case(case, ctx, acc):
     opts = ()
     if case.get('cfg'):
         opts = ('-p', cfg_path(case['cfg']))
+    if case['src'] == 'sequence':
+        pk.run(text, ('-p', cfg_path(case['first'])) if case['first'] else ())
     mol = pk.run(text, opts)
     rec = pk.record(mol)
     v, seen = monitor(rec, mol.version.parameters)
